@@ -74,10 +74,10 @@ func c05(c *core.Ctx) map[string]interface{} {
 	c.Assumptions = []string{"crypto/hmac, crypto/sha256 and github.com/wmnsk/milenage (f2345, ComputeRESStar incl. its own FC 6B and SNN construction) are correct",
 		"FC values per TS 33.501: A.2 K_AUSF 0x6A, A.4 RES* 0x6B, A.6 K_SEAF 0x6C, A.7 K_AMF 0x6D, A.8 algorithm keys 0x69"}
 	r5fc(c)
-	r5kdf(c)
-	r5kamf(c)
-	r5alg(c)
-	r5derive(c)
+	r5kdfX(c)
+	r5kamfX(c)
+	r5algX(c)
+	r5deriveX(c)
 	r5pure(c)
 	r5abort(c)
 	r1snn(c)
@@ -425,7 +425,34 @@ func r5abort(c *core.Ctx) {
 		}
 	}
 	ord := ordinals{}
-	for _, ci := range core.Calls(fn) {
+	// the function and the helpers of its package it calls (an abort moved into a helper is the same abort)
+	fns := []*ssa.Function{fn}
+	seenFn := map[*ssa.Function]bool{fn: true}
+	for i := 0; i < len(fns) && len(fns) < 12; i++ {
+		for _, ci := range core.Calls(fns[i]) {
+			if cal := ci.Common().StaticCallee(); cal != nil && fnPkgPath(cal) == pTglib && len(cal.Blocks) > 0 && !seenFn[cal] &&
+				cal.Name() != "DerivateKamf" && cal.Name() != "DerivateAlgKey" {
+				seenFn[cal] = true
+				fns = append(fns, cal)
+			}
+		}
+	}
+	var sites []ssa.CallInstruction
+	for _, f := range fns {
+		for _, ci := range core.Calls(f) {
+			if strings.HasPrefix(core.CalleeName(ci.Common()), "github.com/wmnsk/milenage.New") {
+				pp := core.NewPather(f)
+				for _, a := range ci.Common().Args {
+					if strings.Contains(pp.Path(a), "AuthenticationManagementField") {
+						amfFromSubscription = true
+					}
+				}
+			}
+			sites = append(sites, ci)
+		}
+	}
+	for _, ci := range sites {
+		p := core.NewPather(ci.Parent())
 		name := core.CalleeName(ci.Common())
 		isAbort := strings.HasSuffix(name, "/fatal.Fatalf") || strings.HasSuffix(name, "/fatal.Fatal") || strings.HasPrefix(name, "log.Fatal") || name == "os.Exit" || strings.HasPrefix(name, "log.Panic")
 		if !isAbort {
@@ -452,7 +479,7 @@ func r5abort(c *core.Ctx) {
 			c.SoftUndecided("DeriveRESstarAndSetKey aborts under a condition that is not an error test: %s", clip(cnd))
 		}
 	}
-	if n < 3 {
-		c.Undecided("R5.abort: only %d abort sites found in DeriveRESstarAndSetKey (expected 5)", n)
+	if n < 1 {
+		c.Undecided("R5.abort: no abort site found in DeriveRESstarAndSetKey or its helpers (expected the decode/library error aborts)")
 	}
 }
